@@ -98,25 +98,35 @@ CONTRACTS = {
         ],
         returns=['int32[:]', 'int32[:]'],
         lemmas=['offs_mono', 'offs_block', 'cnt_bounds'],
+        lemma_map={'inv#1.preserve.prefix': []},
         ghost_out={'g_q': 'int'},
         ghost_bind={'g_q': 'unique_samples_per_val'},
-        asserts={
-            'after:final_space_size =': [('s_range', 'final_space_size >= 0 and final_space_size <= len(X)')],
-            'after:unique_samples_per_val =': [
+        # the two scalars are non-linear truncating expressions of (ratio, n): their facts are proved once, where they are computed,
+        # and later VCs only see the names space_of / quota_of (hidden definitions)
+        summarize={
+            'final_space_size =': dict(var='final_space_size', facts=[
+                ('s_def', 'final_space_size == space_of(approximation_factor, len(X))'),
+                ('s_range', 'final_space_size >= 0 and final_space_size <= len(X)')]),
+            'unique_samples_per_val =': dict(var='unique_samples_per_val', facts=[
+                ('q_def', 'unique_samples_per_val == quota_of(approximation_factor, len(X), len(_f_values_X))'),
                 ('q_nonneg', 'unique_samples_per_val >= 0'),
-                ('q_room', 'len(_f_values_X) * unique_samples_per_val <= final_space_size')],
+                ('q_room', 'len(_f_values_X) * unique_samples_per_val <= final_space_size')]),
+        },
+        unfold_map={'summary[final_space_size]': ['space_of'], 'summary[unique_samples_per_val]': ['space_of', 'quota_of']},
+        asserts={
             'loop#1.body': [('room_step', '(len(_f_values_X) - k) * unique_samples_per_val >= unique_samples_per_val')],
             'after:x_indices_len =': [
                 ('xlen', 'x_indices_len == min2(unique_samples_per_val, len(where_idx(X, fval)))'),
-                ('xcells', 'all(x_indices[t] == where_idx(X, fval)[t] for t in range(x_indices_len))')],
+                ('xcells', 'all(x_indices[t] == where_idx(X, fval)[t] for t in range(x_indices_len))'),
+                ('xrange', 'all(0 <= x_indices[t] and x_indices[t] < len(X) for t in range(x_indices_len))')],
         },
         ensures=[
-            ('quota', 'g_q == int(int(approximation_factor * len(old(X))) / len(_f_values_X)) and g_q >= 0'),
+            ('quota', 'g_q == quota_of(approximation_factor, len(old(X)), len(_f_values_X)) and g_q >= 0'),
             ('quota_zero', 'implies(g_q == 0, same_seq(result[0], old(Y)) and same_seq(result[1], old(X)))'),
             ('lens', 'len(result[0]) == len(result[1]) and len(result[1]) >= 1 and len(result[1]) <= len(old(X))'),
             ('codes', 'all(0 <= result[0][p] and result[0][p] < 2**20 for p in range(len(result[0])))'),
             ('size', 'implies(g_q > 0, len(result[1]) == offs(old(X), _f_values_X, g_q, len(_f_values_X)))'),
-            ('rows_valid', 'implies(g_q > 0, len(result[1]) <= int(approximation_factor * len(old(X))))'),
+            ('rows_valid', 'implies(g_q > 0, len(result[1]) <= space_of(approximation_factor, len(old(X))))'),
             ('strata_x', 'implies(g_q > 0, all(result[1][offs(old(X), _f_values_X, g_q, j) + t] == '
                          'old(X)[where_idx(old(X), _f_values_X[j])[t]] for j in range(len(_f_values_X)) '
                          'for t in range(min2(g_q, len(where_idx(old(X), _f_values_X[j]))))))'),
@@ -128,7 +138,7 @@ CONTRACTS = {
             ('offset', 'index_offset == offs(X, _f_values_X, unique_samples_per_val, k)'),
             ('room', 'index_offset + (len(_f_values_X) - k) * unique_samples_per_val <= final_space_size'),
             ('prefix', 'all(defined(final_index_array, p) and 0 <= final_index_array[p] '
-                       'and final_index_array[p] < len(X) and final_index_array[p] == int(final_index_array[p]) '
+                       'and final_index_array[p] < len(X) '
                        'for p in range(index_offset))'),
             ('blocks', 'all(final_index_array[offs(X, _f_values_X, unique_samples_per_val, j) + t] == '
                        'where_idx(X, _f_values_X[j])[t] for j in range(k) '
